@@ -138,7 +138,7 @@ func VerifC13Step() {
 // ---------- combinators against an ordered-choice reference ----------
 
 const (
-	pStub = iota
+	pStub   = iota
 	pAccept // Accept(token is a Name)
 	pOk
 	pAssert
@@ -160,8 +160,8 @@ type vP struct {
 	subs []*vP
 }
 
-func st(k int) *vP                 { return &vP{op: pStub, k: k} }
-func mk(op int, subs ...*vP) *vP   { return &vP{op: op, subs: subs} }
+func st(k int) *vP               { return &vP{op: pStub, k: k} }
+func mk(op int, subs ...*vP) *vP { return &vP{op: op, subs: subs} }
 
 // vTab: stub parser k at position p succeeds or fails and consumes 0..2 tokens, an arbitrary
 // but fixed function of (k, p) chosen by the solver on first use.
